@@ -478,6 +478,8 @@ func provEnumNumbers(r *core.Run) {
 			}
 			if why, ok := isRangeIndexPlusOne(info, fd, num); ok {
 				o.Auto("%s", why)
+			} else if why, ok := numberViaCallback(pk, fd, c, num); ok {
+				o.Auto("%s", why)
 			} else {
 				o.Fail("enum value number %s is not <range index>+1: it depends on something other than the option's position, so appending an option can renumber existing ones", core.ExprStr(num))
 			}
@@ -520,7 +522,7 @@ func provEnumNumbers(r *core.Run) {
 			})
 		})
 	}
-	r.Floor("R-PROV/V2", 4, "two addValue calls and the UNSPECIFIED probes")
+	r.Floor("R-PROV/V2", 2, "an addValue call and an UNSPECIFIED probe")
 }
 
 func isRangeIndexPlusOne(info *types.Info, fd *ast.FuncDecl, e ast.Expr) (string, bool) {
@@ -544,6 +546,118 @@ func isRangeIndexPlusOne(info *types.Info, fd *ast.FuncDecl, e ast.Expr) (string
 		}
 	}
 	return "", false
+}
+
+// numberViaCallback recognises the numbering loop factored out into a helper
+// that calls back once per option: num is a parameter of a function literal
+// which is itself an argument of a call of a function H of this package, and
+// every call H makes of that parameter passes, in num's position, the
+// constant 0 or <forward range index>+1; H does nothing else with the
+// callback.
+func numberViaCallback(pk *packages.Package, fd *ast.FuncDecl, sink *ast.CallExpr, num ast.Expr) (string, bool) {
+	info := pk.TypesInfo
+	id, ok := core.Unparen(ptrArg(num)).(*ast.Ident)
+	if !ok {
+		return "", false
+	}
+	obj := info.ObjectOf(id)
+	path := core.PathTo(fd.Body, sink)
+	for i := len(path) - 1; i > 0; i-- {
+		fl, ok := path[i].(*ast.FuncLit)
+		if !ok {
+			continue
+		}
+		pi := litParamIndex(info, fl.Type, obj)
+		if pi < 0 {
+			continue
+		}
+		hc, ok := path[i-1].(*ast.CallExpr)
+		if !ok {
+			return "", false
+		}
+		ai := -1
+		for k, a := range hc.Args {
+			if a == ast.Expr(fl) {
+				ai = k
+			}
+		}
+		callee := core.CalleeFunc(info, hc)
+		if ai < 0 || callee == nil || callee.Pkg() != pk.Types {
+			return "", false
+		}
+		var hd *ast.FuncDecl
+		core.AllFuncDecls(pk, func(d *ast.FuncDecl) {
+			if info.Defs[d.Name] == types.Object(callee) {
+				hd = d
+			}
+		})
+		if hd == nil || hd.Body == nil {
+			return "", false
+		}
+		var cb types.Object
+		k := 0
+		for _, f := range hd.Type.Params.List {
+			for _, nm := range f.Names {
+				if k == ai {
+					cb = info.ObjectOf(nm)
+				}
+				k++
+			}
+		}
+		if cb == nil {
+			return "", false
+		}
+		calls, uses, good := 0, 0, true
+		var whys []string
+		ast.Inspect(hd.Body, func(n ast.Node) bool {
+			switch x := n.(type) {
+			case *ast.Ident:
+				if info.Uses[x] == cb {
+					uses++
+				}
+			case *ast.CallExpr:
+				f, ok := core.Unparen(x.Fun).(*ast.Ident)
+				if !ok || info.Uses[f] != cb {
+					return true
+				}
+				calls++
+				if pi >= len(x.Args) {
+					good = false
+					return true
+				}
+				a := x.Args[pi]
+				if v, ok := core.ConstInt(info, a); ok && v == 0 {
+					whys = append(whys, "0")
+				} else if w, ok := isRangeIndexPlusOne(info, hd, a); ok {
+					whys = append(whys, w)
+				} else {
+					good = false
+				}
+			}
+			return true
+		})
+		if calls == 0 || uses != calls || !good {
+			return "", false
+		}
+		return fmt.Sprintf("parameter of the callback given to %s, which calls it with %s only", callee.Name(), strings.Join(whys, " / ")), true
+	}
+	return "", false
+}
+
+func litParamIndex(info *types.Info, ft *ast.FuncType, obj types.Object) int {
+	k := 0
+	for _, f := range ft.Params.List {
+		for _, nm := range f.Names {
+			if info.ObjectOf(nm) == obj {
+				return k
+			}
+			k++
+		}
+		if len(f.Names) == 0 {
+			k++
+		}
+	}
+	return -1
 }
 
 // provNoReorder (R-PROV/V3a).
